@@ -168,6 +168,9 @@ type c15Op struct {
 
 type c15In struct {
 	T   string   `json:"t"` // hist | child
+	// Loop: refreshes after the first are NOT driven through the shim: the hook is created with an update interval of 3 ms and
+	// its own goroutine has to come for the endpoint's new content (the driver waits until that content was served twice)
+	Loop bool `json:"loop,omitempty"`
 	Iss string   `json:"iss"`
 	Aud string   `json:"aud"`
 	Pub []c15Pub `json:"pub"`
@@ -327,7 +330,21 @@ type c15Srv struct {
 	mode   string
 	status int
 	body   []byte
+	hits   int // GETs answered with the current content
 	ts     *httptest.Server
+}
+
+// served waits until the endpoint has answered n GETs with its current content.
+func (s *c15Srv) served(n int, patience time.Duration) bool {
+	for dl := time.Now().Add(patience); time.Now().Before(dl); time.Sleep(500 * time.Microsecond) {
+		s.mu.Lock()
+		h := s.hits
+		s.mu.Unlock()
+		if h >= n {
+			return true
+		}
+	}
+	return false
 }
 
 func newC15Srv() *c15Srv {
@@ -335,6 +352,7 @@ func newC15Srv() *c15Srv {
 	s.ts = httptest.NewServer(nethttp.HandlerFunc(func(w nethttp.ResponseWriter, r *nethttp.Request) {
 		s.mu.Lock()
 		mode, status, body := s.mode, s.status, s.body
+		s.hits++
 		s.mu.Unlock()
 		if mode == "drop" {
 			if hj, ok := w.(nethttp.Hijacker); ok {
@@ -357,6 +375,7 @@ func newC15Srv() *c15Srv {
 func (s *c15Srv) set(op *c15Op) {
 	s.mu.Lock()
 	s.mode, s.status, s.body = op.Mode, op.Status, []byte(op.Body)
+	s.hits = 0
 	s.mu.Unlock()
 }
 
@@ -412,7 +431,23 @@ func c15Exec(o *Out, kind string, in *c15In) {
 			var err error
 			if i == 0 {
 				// 24 h: the background refresh never runs during a case; refreshes are driven through the shim
-				h, err = cjwt.NewHook(cjwt.Config{Issuer: in.Iss, Audience: in.Aud, JWKSetURL: srv.ts.URL, JWKUpdateInterval: 24 * time.Hour})
+				iv := 24 * time.Hour
+				if in.Loop {
+					iv = 3 * time.Millisecond
+				}
+				h, err = cjwt.NewHook(cjwt.Config{Issuer: in.Iss, Audience: in.Aud, JWKSetURL: srv.ts.URL, JWKUpdateInterval: iv})
+			} else if in.Loop {
+				if h == nil {
+					continue // the initial fetch failed: there is no hook and nothing that could refresh
+				}
+				fetched := srv.served(2, 5*time.Second)
+				exp := "None"
+				if !op.Fails {
+					exp = "(Some " + c15KVs(op.Expect) + ")"
+				}
+				coqOps = append(coqOps, fmt.Sprintf("HLoop %s %s", exp, cBool(fetched)))
+				obs = append(obs, map[string]interface{}{"op": "periodic refresh", "new_content_served_twice_within_5s": fetched})
+				continue
 			} else {
 				err = cjwt.VerifRefresh(h)
 			}
@@ -1276,6 +1311,17 @@ func c15Stream(o *Out, rng *rand.Rand, n int) {
 	}
 	// fixed rotation stories
 	c15Exec(o, "rotation-fixed", c15RotationStory(ring))
+	// the same kind of history with the hook's OWN refresh loop doing the fetching (failed fetches in between included)
+	{
+		in := c15RotationStory(ring)
+		in.Loop = true
+		c15Exec(o, "rotation-loop", in)
+		for k := 0; k < 3; k++ {
+			in := c15History(rng, ring, 6+rng.Intn(8))
+			in.Loop = true
+			c15Exec(o, "rotation-loop", in)
+		}
+	}
 	// a LARGE key set (hundreds of kids): every one of them selects its own key, first, middle and last alike
 	{
 		now := time.Now()
